@@ -56,6 +56,7 @@ func c31Run(r *core.Run, p *core.Prog, rel, name string, work []string) {
 		return false
 	}
 	sawAcq := false
+	tmRoots := map[types.Object]bool{}
 	cl := func(n ast.Node, cond *bool) []ev {
 		var out []ev
 		if d, ok := n.(*ast.DeferStmt); ok {
@@ -86,10 +87,23 @@ func c31Run(r *core.Run, p *core.Prog, rel, name string, work []string) {
 				out = append(out, ev{label: "work", node: c})
 			}
 		}
+		// the refusal status may also be stored into the result object field by field before it is returned
+		if a, ok := n.(*ast.AssignStmt); ok && len(a.Lhs) == len(a.Rhs) {
+			for k, rhs := range a.Rhs {
+				if mentionsNameDeep(p, info, f.Decl.Body, rhs, "StatusTooManyRequests", 0) {
+					if root := core.ObjOf(info, rootExpr(a.Lhs[k])); root != nil {
+						tmRoots[root] = true
+					}
+				}
+			}
+		}
 		if rs, ok := n.(*ast.ReturnStmt); ok {
 			tm := false
 			for _, res := range rs.Results {
 				if mentionsNameDeep(p, info, f.Decl.Body, res, "StatusTooManyRequests", 0) {
+					tm = true
+				}
+				if root := core.ObjOf(info, rootExpr(res)); root != nil && tmRoots[root] {
 					tm = true
 				}
 			}
@@ -109,6 +123,7 @@ func c31Run(r *core.Run, p *core.Prog, rel, name string, work []string) {
 	nOK, nFail := 0, 0
 	for _, path := range paths {
 		sawAcq = false
+		tmRoots = map[types.Object]bool{}
 		var evs []ev
 		state := "" // "", "pending" (acquired, err untested), "ok", "failed"
 		for i, n := range path {
